@@ -21,3 +21,9 @@ Proof.
   - intros Hin. apply in_app_or in Hin. destruct Hin as [Hin|Hin]; [contradiction|]. eapply Hd; [left; reflexivity|eassumption].
   - apply IH; [assumption|assumption|]. intros x Hx. apply Hd. right; assumption.
 Qed.
+
+Lemma NoDup_app_intro_single {A} (l : list A) x : NoDup l -> ~ In x l -> NoDup (l ++ [x]).
+Proof.
+  intros Hl Hx. apply nodup_app_intro; [assumption | constructor; [intros []|constructor] |].
+  intros y Hy [E|[]]. subst. contradiction.
+Qed.
